@@ -60,11 +60,26 @@ def term_kinds():
 REDUCED = ["var", "sq", "un:sin", "un:atan", "un:log2", "un:abs", "x**y", "param", "const", "node00:sum", "node05:dot", "node17:qform"]
 
 
-def left_deep(b, terms, ops):
-    acc = b.build(terms[0])
-    for t, op in zip(terms[1:], ops):
-        x = b.build(t)
+def left_deep(b, terms, ops, warm=False):
+    """warm: the user inspects every term and every partial accumulation (degree, variables) while building, so
+    every sub-expression object enters the final tree with its per-object caches already filled."""
+    def touch(o):
+        if warm and hasattr(o, "get_variables"):
+            try:
+                o.degree
+                o.get_variables()
+                o.is_linear()
+            except Exception:
+                pass
+        return o
+
+    acc = touch(b.build(terms[0]))
+    last = len(terms) - 2
+    for i, (t, op) in enumerate(zip(terms[1:], ops)):
+        x = touch(b.build(t))
         acc = acc + x if op == "+" else acc - x if op == "-" else acc * x if op == "*" else acc / x
+        if i != last and warm != "terms":
+            touch(acc)
     return acc
 
 
@@ -197,7 +212,7 @@ def run_config(terms, ops, assoc, T, which, fails, rep, tag):
     ref, A = ref_fold(terms, ops, names, pts, Pn, params)
     b = Builder(params=params)
     try:
-        e = left_deep(b, terms, ops) if assoc == "left" else balanced(b, terms, ops)
+        e = left_deep(b, terms, ops, warm=(assoc == "left-warm")) if assoc.startswith("left") else balanced(b, terms, ops)
     except Exception as ex:
         if rep:
             rep.skipped["build:" + type(ex).__name__] += 1
@@ -241,8 +256,11 @@ def check_small(kinds, ops, n, rep=None, want=None, Ts=None):
         plan = [("all", T) for T in (0, 1, n - 1)]
     else:
         plan = [(w, T) for w in ("all", "autodiff", "compiler", "analysis", "expressions") for T in full]
-    for assoc in ("left", "balanced"):
+    for assoc in ("left", "balanced", "left-warm"):
         for which, T in plan:
+            if assoc == "left-warm" and (which not in ("all", "analysis", "expressions")
+                                         or (Ts is not None and (which != "all" or T not in (0, n - 1, n + 1)))):
+                continue
             if True:
                 tag = {"assoc": assoc, "T": T, "modules": which}
                 r = run_config(terms, opl, assoc, T, which, fails, rep, tag)
@@ -366,6 +384,9 @@ def check_real(kind, op, n, rep=None, want=None):
             fails.add("degree-depends-on-association", config=tag, left_deep=val, balanced=d2)
 
     obs("degree", lambda: e.degree, chk_deg)
+    # non-initial per-object caches: every term (and, up to 900 terms, every partial accumulation) inspected while building
+    obs("degree-after-inspecting-terms", lambda: left_deep(Builder(params=params), terms, ops,
+                                                           warm=True if n <= (900 if _TIER[0] == "thorough" else 401) else "terms").degree, chk_deg)
 
     def chk_val(label):
         def f(val):
@@ -529,6 +550,8 @@ def real_items(tier):
                 items.append(("real", k, op, n))
         for op in ("*", "/") if tier == "quick" else ():
             items.append(("real", k, op, 401))
+            if k in ("un:sin", "un:exp", "var"):
+                items.append(("real", k, op, 900))
     for k in ("var", "sq", "un:sin"):
         for n in (5000, 20000) if tier == "thorough" else (5000,):
             items.append(("real", k, "+", n))
@@ -543,8 +566,12 @@ def shards(tier, seed):
     return chunks + real_items(tier)
 
 
+_TIER = ["quick"]
+
+
 def explore(item, tier, seed):
     rep = Report()
+    _TIER[0] = tier
 
     def record(fs, case):
         seen = set()
@@ -580,6 +607,9 @@ def culprit(v):
     if c["regime"] == "small":
         return {"kind": v["kind"], "regime": "small", "kinds": c["kinds"], "modules": cfg.get("modules"), "assoc": cfg.get("assoc")}
     if c["regime"] == "real":
+        if v["kind"].startswith("RecursionError:"):
+            # call depth is a function of operator and term count only (the term kind changes it by a constant)
+            return {"kind": v["kind"], "regime": "real", "op": c["ops"][0], "n": c["n"]}
         return {"kind": v["kind"], "regime": "real", "kinds": c["kinds"], "op": c["ops"][0]}
     return {"kind": v["kind"], "regime": "vector", "family": cfg.get("family")}
 
